@@ -781,6 +781,7 @@ def explore(p):
     divs, notes, n_seq = [], [], 0
     alive = [[]]
     pool = multiprocessing.get_context('fork').Pool(workers, initializer=None) if workers > 1 else None
+    pids = [w.pid for w in pool._pool] if pool is not None else []
     try:
         jobs0 = [list(s) for s in TARGETED] if p.get('targeted', True) else []
         for L in range(1, maxlen + 1):
@@ -802,6 +803,13 @@ def explore(p):
             pool.close()
             pool.join()
     cleanup_files()
+    for pid in pids:      # database files of the worker processes
+        for n in os.listdir(OUT) if os.path.isdir(OUT) else []:
+            if n.startswith('c07_%d' % pid) and (n.endswith('.db') or n.endswith('.db-journal')):
+                try:
+                    os.remove(os.path.join(OUT, n))
+                except OSError:
+                    pass
     return summarise(divs, notes, n_seq, t0, {'maxlen': maxlen, 'alphabet': len(A), 'backends': backends, 'targeted': len(TARGETED)})
 
 
